@@ -22,7 +22,7 @@ RULE = ('(A) grid: every x in 0..N for every (b, s<=b) with b up to the tier bou
 ASSUMPTIONS = ['floor-based integer bin arithmetic is the specification: window i is [i*s, i*s+b)',
                'a bin is "inside the contig" when start>=0 and end<=contig length (the documented --keepOverBounds rule)']
 MIN_NONTRIVIAL = {'quick': 2000, 'thorough': 50000}
-REQUIRED_MONITORS = ['call:bamToCountTable.coordinate_to_bins', 'call:utils.binning.coordinate_to_bins',
+REQUIRED_MONITORS = ['option:doNotDivideFragments=True,divideMultimapping=True', 'call:bamToCountTable.coordinate_to_bins', 'call:utils.binning.coordinate_to_bins',
                      'hook:coordinate_to_bins_during_table', 'table:cells_compared', 'history:two_files_one_call', 'history:same_args_second_call', 'option:splitFeatures_with_bin', 'option:bin_tag_is_the_only_feature', 'lib:contig_shorter_than_one_bin']
 EXHAUSTIVE = {'quick': True, 'thorough': True}
 
@@ -151,6 +151,10 @@ def run_table(case, acc, b2c):
     multiples = 0
     rejected = 0
     n = r.randint(5, 60)
+    # weights: --doNotDivideFragments (a mapped pair counts 1 per read) and --divideMultimapping (1/NH or 1/len(XA.split(';'))), alone and together
+    dnd = case['i'] % 3 == 1
+    dmm = case['i'] % 4 in (1, 2)
+    rw = rng(case['seed'], 'C10', 'weights', case['i'])
     for k in range(n):
         tid = r.randrange(len(refs))
         fi = r.randrange(len(refs_per_file))
@@ -179,8 +183,21 @@ def run_table(case, acc, b2c):
         if paired:
             flag = 1 | 64 | (0 if r.random() < 0.7 else 8)
             w = 0.5 if not flag & 8 else 1.0
+            if dnd:
+                w = 1.0
         cell = r.choice(cells)
         tags = {'SM': cell}
+        if dmm:
+            u = rw.random()
+            if u < 0.4:
+                tags['NH'] = rw.randint(1, 5)
+                w = w / tags['NH']
+            elif u < 0.55:
+                alts = rw.randint(1, 4)
+                tags['XA'] = ''.join(f'chr9,+{rw.randint(1, 999)},20M,0;' for _ in range(alts))
+                w = w / len(tags['XA'].split(';'))
+                if u < 0.45:
+                    tags['NH'] = 7          # XA takes precedence over NH
         if bintag in ('DS', 'xs'):
             tags[bintag] = x if (k + case['i']) % 7 else str(x)     # every seventh value is stored as text instead of as an integer
         recs.append({'name': f'r{k}', 'flag': flag, 'tid': tid, 'pos': pos, 'mapq': 60, 'cigar': f'{readlen}M',
@@ -222,6 +239,9 @@ def run_table(case, acc, b2c):
                 args = table_args(bams[0], b, s, keep, bintag, 'reference_name')
                 if only_bin_feature:
                     args.joinedFeatureTags = bintag      # the binned tag is the only feature: rows are (start, end), summed over the contigs
+                args.doNotDivideFragments = dnd
+                args.divideMultimapping = dmm
+                acc.count(f'option:doNotDivideFragments={dnd},divideMultimapping={dmm}')
                 if case['i'] % 4 == 1:
                     # --splitFeatures (one count per value of a multi-valued feature) next to -bin: the contig feature has one value per read,
                     # so the binned table is the same table
